@@ -378,7 +378,7 @@ class VersionGen:
             # an import no node uses, with a version that looks like a default-domain opset (valid; the built
             # model imports it too) - the source / target version must be read off the DEFAULT domain only
             dom = rng.choice(["custom.unused", "ai.onnx.training"] + ([] if "ml" in self.second else ["ai.onnx.ml"]))
-            ver = {"ai.onnx.training": 1, "ai.onnx.ml": rng.choice([1, 3, 5])}.get(dom) or rng.choice([14, 17, 18, 19, 20, 21, 30])
+            ver = {"ai.onnx.training": 1, "ai.onnx.ml": rng.choice([1, 3, 5])}.get(dom) or rng.choice([14, 14, 18, 18, 19, 20, 21, 30])
             imports.append(H.make_operatorsetid(dom, ver))
             self.features.add("unused-import")
         if len(imports) > 1 and rng.random() < 0.5:
